@@ -255,10 +255,6 @@ func runCase(c *gal.Ctx, f *hflow) {
 
 	// what the model of UEFIFiles(...).Data works on: the file nodes of the parsed image
 	nodes, nodesOK := f.fileNodes(res)
-	if os.Getenv("C10_DEBUG_NODES") != "" && f.multi {
-		fmt.Println("built:", f.fileKinds)
-		fmt.Println("nodes:", nodesOK, nodes)
-	}
 	filesLit := "None"
 	if nodesOK {
 		filesLit = fmt.Sprintf("(Some (%s, %s))", gal.Nat(f.artIndex(f.img.sa)), nodesLit(nodes))
